@@ -588,25 +588,6 @@ def pred(case, out):
     return seen[:8]
 
 # ------------------------------------------------------------------ known findings
-def _rounding_sensitive(case):
-    """some comparison cumsum[j] <= ptr[i] comes out differently in binary64 than in exact arithmetic
-    (computed from the inputs alone, with the harness' own float arithmetic)"""
-    if "off" not in case: return False
-    p = [_fh(h) for h in case["p"]]
-    k = _prod(case["size"])
-    if k <= 0 or not p: return False
-    ps = sorted(p, reverse=True)
-    cf = [float(v) for v in numpy.cumsum(numpy.array(ps, dtype=float))]
-    cq = []; acc = F(0)
-    for x in ps: acc += F(x); cq.append(acc)
-    tot = float(numpy.array(p, dtype=float).sum()); totq = sum(F(x) for x in p)
-    d = tot / k; off = _fh(case["off"])
-    for i in range(k):
-        pf = off + d * i; pq = F(off) + totq / k * i
-        for j in range(len(ps)):
-            if (cf[j] <= pf) != (cq[j] <= pq): return True
-    return False
-
 def _float_walk(case, order):
     """the selection (before the shuffle) the binary64 arithmetic of the current algorithm produces — harness' own arithmetic"""
     p = numpy.array([_fh(h) for h in case["p"]], dtype=float)
